@@ -11,10 +11,11 @@ NAMES_DIGITS = ["0", "1", "2", "01", "10", "-1", "+1", " 1", "1_0", "１", "1e0"
 NAMES_PUNCT = ["", "~", "/", "~1", "~0", "a/b", "m~n", "#", "#a", "#0", "-", "a-b", "$", "@", "*", ".", "..", "[", "]", "a b", " ", "?", ",", ":", "(", "|", "&", "^"]
 NAMES_QUOTE = ["'", '"', "\\", "a\\", "\\'", '\\"', "a'b", 'a"b', "\\\\", "\\n", "\\u0041"]
 NAMES_CTRL = ["\n", "\t", "\r", "\b", "\f", "\u0000", "\u001f", "\u007f", "a\nb"]
-NAMES_UNI = ["\u00e9", "\u263a", "\u65e5\u672c", "\U0001f600", "a\U0001f600", "\u00e9\u00e9", "\u0661", "\ud7ff", "\uffff", "\ue000"]
+NAMES_FORMAT = ["%", "%%", "%d", "%s", "100%", "%(a)s", "%%%", "{}", "{0}", "{a}", "{{", "}}", "\\1", "\\g<0>", "${a}", "$1", "%5B", "%27", "&amp;"]
+NAMES_UNI = ["e\u0301", "\u212b", "\u00c5", "A\u030a", "\ufb01", "fi", "\u00e9", "\u263a", "\u65e5\u672c", "\U0001f600", "a\U0001f600", "\u00e9\u00e9", "\u0661", "\ud7ff", "\uffff", "\ue000"]
 NAME_CLASSES = {
     "plain": NAMES_PLAIN, "reserved": NAMES_RESERVED, "digits": NAMES_DIGITS, "punct": NAMES_PUNCT,
-    "quote": NAMES_QUOTE, "ctrl": NAMES_CTRL, "unicode": NAMES_UNI,
+    "quote": NAMES_QUOTE, "ctrl": NAMES_CTRL, "unicode": NAMES_UNI, "format": NAMES_FORMAT,
 }
 ALL_NAMES = [n for v in NAME_CLASSES.values() for n in v]
 NAME_CLASS_OF = {n: c for c, v in NAME_CLASSES.items() for n in v}
